@@ -41,12 +41,22 @@ pub struct Case {
     pub ncpu: usize,
     pub cpu_offset: usize,
     pub bch: bool,
+    /// outer-code correction threshold used when `bch` is set (and by the frame script in any case)
+    #[serde(default = "default_t")]
+    pub bch_t: u64,
     pub max_err: u64,
     pub delay_mode: u32,
     pub weights: [u32; NTYPES],
     pub points: usize,
     pub seed: u64,
     pub inject: Inject,
+    /// run without a progress reporter (the statistics are then judged from the return value only)
+    #[serde(default)]
+    pub no_reporter: bool,
+}
+
+fn default_t() -> u64 {
+    2
 }
 
 const WEIGHTS: [[u32; NTYPES]; 6] = [[5, 2, 2, 1, 1, 1], [1, 1, 1, 1, 1, 1], [12, 1, 1, 1, 1, 1], [0, 0, 1, 1, 0, 1], [3, 3, 0, 2, 1, 0], [2, 0, 3, 1, 2, 0]];
@@ -56,7 +66,7 @@ fn base_strategy(tier: Tier) -> impl Strategy<Value = Case> {
         Tier::Quick => prop_oneof![Just(1usize), Just(2), Just(3), Just(5), Just(8), Just(16)].boxed(),
         Tier::Thorough => (1usize..=16).boxed(),
     };
-    (ncpu, 0usize..16, any::<bool>(), 1u64..=40, 0u32..4, 0usize..WEIGHTS.len(), 1usize..=3, any::<u64>()).prop_map(|(ncpu, cpu_offset, bch, max_err, delay_mode, w, points, seed)| Case { ncpu, cpu_offset, bch, max_err, delay_mode, weights: WEIGHTS[w], points, seed, inject: Inject::None })
+    (ncpu, 0usize..16, (any::<bool>(), prop_oneof![1 => Just(1u64), 3 => Just(2u64), 1 => Just(3u64), 1 => Just(4u64)]), 1u64..=40, 0u32..4, 0usize..WEIGHTS.len(), 1usize..=3, any::<u64>()).prop_map(|(ncpu, cpu_offset, (bch, bch_t), max_err, delay_mode, w, points, seed)| Case { ncpu, cpu_offset, bch, bch_t, max_err, delay_mode, weights: WEIGHTS[w], points, seed, inject: Inject::None, no_reporter: seed % 5 == 0 })
 }
 
 fn strategy(tier: Tier) -> BoxedStrategy<Case> {
@@ -113,6 +123,7 @@ fn check(case: &Case, p: &mut Probe) -> Check {
                 "bch" => "bch",
                 "run-returned-err" => "run-returned-err",
                 "workers-as-affinity" => "workers-as-affinity",
+                "no-reporter" => "no-reporter",
                 _ => "other",
             };
             p.class(st);
@@ -136,6 +147,7 @@ fn check(case: &Case, p: &mut Probe) -> Check {
 struct Shared {
     seed: u64,
     k: usize,
+    thr: usize,
     built: AtomicUsize,
     dropped: AtomicUsize,
     produced: Mutex<[u64; NTYPES]>,
@@ -184,14 +196,14 @@ fn frame_type(seed: u64, weights: &[u32; NTYPES], id: usize, j: u64) -> (usize, 
     (t, h >> 32)
 }
 
-/// type -> (bit errors in the systematic part, success verdict)
-fn type_spec(t: usize, k: usize) -> (usize, bool) {
+/// type -> (bit errors in the systematic part, success verdict); `thr` is the outer-code threshold
+fn type_spec(t: usize, k: usize, thr: usize) -> (usize, bool) {
     match t {
         0 => (0, true),
         1 => (0, false),
         2 => (1, false),
-        3 => (2, false), // exactly the outer-code threshold
-        4 => (3, true),  // false decode
+        3 => (thr, false),    // exactly the outer-code threshold
+        4 => (thr + 1, true), // one more than the threshold, with a success verdict: false decode
         _ => (k, false),
     }
 }
@@ -221,7 +233,7 @@ impl LdpcDecoder for SDec {
             }
             _ => {}
         }
-        let (e, ok) = type_spec(t, self.sh.k);
+        let (e, ok) = type_spec(t, self.sh.k, self.sh.thr);
         let mut cw: Vec<u8> = llrs.iter().map(|&x| u8::from(x <= 0.0)).collect();
         for b in cw.iter_mut().take(e) {
             *b ^= 1;
@@ -254,7 +266,7 @@ fn test_h() -> SparseMatrix {
     h
 }
 
-fn check_stats(s: &Statistics, k: usize, bch: bool, max_err: u64, produced: &[u64; NTYPES], final_: bool) -> Result<[u64; NTYPES], (String, String)> {
+fn check_stats(s: &Statistics, k: usize, thr: u64, bch: bool, max_err: u64, produced: &[u64; NTYPES], final_: bool) -> Result<[u64; NTYPES], (String, String)> {
     let mut n = [0u64; NTYPES];
     let mut x = s.total_iterations;
     for t in n.iter_mut() {
@@ -267,7 +279,7 @@ fn check_stats(s: &Statistics, k: usize, bch: bool, max_err: u64, produced: &[u6
     e(s.num_frames == n.iter().sum::<u64>(), "num_frames", "num_frames is not the number of counted frames")?;
     e(s.ldpc.frame_errors == n[2] + n[3] + n[4] + n[5], "frame_errors", "frame errors do not add up")?;
     e(s.false_decodes == n[4], "false_decodes", "false decodes do not add up")?;
-    e(s.ldpc.bit_errors == n[2] + 2 * n[3] + 3 * n[4] + k * n[5], "bit_errors", "bit errors (systematic bits only) do not add up")?;
+    e(s.ldpc.bit_errors == n[2] + thr * n[3] + (thr + 1) * n[4] + k * n[5], "bit_errors", "bit errors (systematic bits only) do not add up")?;
     e(s.ldpc.correct_iterations == n[0] + n[1] * B, "correct_iterations", "correct-frame iterations do not add up")?;
     let close = |a: f64, b: f64| (a.is_nan() && b.is_nan()) || a == b || (a - b).abs() <= 1e-12 * a.abs().max(b.abs());
     e(close(s.ldpc.ber, s.ldpc.bit_errors as f64 / (k as f64 * s.num_frames as f64)), "ber", "BER is not bit errors / (k * frames)")?;
@@ -283,9 +295,9 @@ fn check_stats(s: &Statistics, k: usize, bch: bool, max_err: u64, produced: &[u6
             }
         }
         (true, Some(b)) => {
-            // outer-code threshold T = 2: frames with more than 2 bit errors are outer-code failures
-            e(b.frame_errors == n[4] + n[5], "bch.frame_errors", "outer-code frame errors do not add up (frames with exactly 2 bit errors are correctable)")?;
-            e(b.bit_errors == 3 * n[4] + k * n[5], "bch.bit_errors", "outer-code bit errors do not add up")?;
+            // outer-code threshold T: frames with more than T bit errors are outer-code failures
+            e(b.frame_errors == n[4] + n[5], "bch.frame_errors", "outer-code frame errors do not add up (frames with exactly threshold-many bit errors are correctable)")?;
+            e(b.bit_errors == (thr + 1) * n[4] + k * n[5], "bch.bit_errors", "outer-code bit errors do not add up")?;
             e(b.correct_iterations == n[0] + n[1] * B + n[2] * B * B + n[3] * B * B * B, "bch.correct_iterations", "outer-code correct iterations do not add up")?;
             e(close(b.ber, b.bit_errors as f64 / (k as f64 * s.num_frames as f64)), "bch.ber", "outer-code BER")?;
             e(close(b.fer, b.frame_errors as f64 / s.num_frames as f64), "bch.fer", "outer-code FER")?;
@@ -342,11 +354,18 @@ fn run_case(c: &Case) -> serde_json::Value {
         Inject::DecoderPanic { mask, at_frame, slow } => (mask, at_frame, slow),
         _ => (0, 0, false),
     };
-    let sh = Arc::new(Shared { seed: c.seed, k, built: AtomicUsize::new(0), dropped: AtomicUsize::new(0), produced: Mutex::new([0; NTYPES]), weights: c.weights, delay_mode: c.delay_mode, panic_mask: mask, panic_at: at, slow, workers_per_point: AtomicUsize::new(c.ncpu) });
+    let sh = Arc::new(Shared { seed: c.seed, k, thr: c.bch_t as usize, built: AtomicUsize::new(0), dropped: AtomicUsize::new(0), produced: Mutex::new([0; NTYPES]), weights: c.weights, delay_mode: c.delay_mode, panic_mask: mask, panic_at: at, slow, workers_per_point: AtomicUsize::new(c.ncpu) });
     let ebn0s: Vec<f32> = (0..c.points).map(|i| 40.0 + i as f32).collect();
     let (tx, rx) = std::sync::mpsc::channel();
-    let reporter = Some(Reporter { tx, interval: Duration::from_micros(50) });
-    let bch_t = if c.bch { 2 } else { 0 };
+    // without a reporter the channel is kept open by `_keep`, so that the witness monitor keeps running
+    let mut _keep = None;
+    let reporter = if c.no_reporter {
+        _keep = Some(tx);
+        None
+    } else {
+        Some(Reporter { tx, interval: Duration::from_micros(50) })
+    };
+    let bch_t = if c.bch { c.bch_t } else { 0 };
     let returned = Arc::new(AtomicBool::new(false));
     let reports: Arc<Mutex<Vec<Report>>> = Arc::new(Mutex::new(Vec::new()));
     // witness monitor: drains the report channel and watches for a provable hang
@@ -424,9 +443,12 @@ fn run_case(c: &Case) -> serde_json::Value {
         Err(p) => return viol("run-panicked", format!("BerTest::run itself panicked: {p}")),
         Ok(r) => r,
     };
+    if c.no_reporter {
+        classes.push("no-reporter");
+    }
     // report stream: Finished exactly once and last
     let finished = reports.iter().filter(|r| matches!(r, Report::Finished)).count();
-    if finished != 1 || reports.last() != Some(&Report::Finished) {
+    if !c.no_reporter && (finished != 1 || reports.last() != Some(&Report::Finished)) {
         return viol("finished-report", format!("'finished' report delivered {finished} times, last report is {:?}", reports.last().map(|r| matches!(r, Report::Finished))));
     }
     if built_at_return != dropped_at_return || built != dropped {
@@ -438,7 +460,7 @@ fn run_case(c: &Case) -> serde_json::Value {
             (Inject::DecoderPanic { .. }, Ok(stats)) => {
                 // only some workers died: the statistics must still satisfy the identities
                 for s in &stats {
-                    if let Err((key, msg)) = check_stats(s, k, c.bch, c.max_err, &produced, true) {
+                    if let Err((key, msg)) = check_stats(s, k, c.bch_t, c.bch, c.max_err, &produced, true) {
                         return viol(&key, msg);
                     }
                 }
@@ -463,7 +485,7 @@ fn run_case(c: &Case) -> serde_json::Value {
         if s.ebn0_db != e {
             return viol("points", format!("statistics entry for Eb/N0 {} where {e} was requested", s.ebn0_db));
         }
-        match check_stats(s, k, c.bch, c.max_err, &produced, true) {
+        match check_stats(s, k, c.bch_t, c.bch, c.max_err, &produced, true) {
             Ok(n) => ns.push(n),
             Err((key, msg)) => return viol(&key, msg),
         }
@@ -485,13 +507,16 @@ fn run_case(c: &Case) -> serde_json::Value {
                 return viol("report-order", format!("frame count decreased within Eb/N0 {}", s.ebn0_db));
             }
             last_frames = s.num_frames;
-            if let Err((key, msg)) = check_stats(s, k, c.bch, c.max_err, &produced, false) {
+            if let Err((key, msg)) = check_stats(s, k, c.bch_t, c.bch, c.max_err, &produced, false) {
                 return viol(&format!("report:{key}"), msg);
             }
             last_of[idx] = Some(s.clone());
         }
     }
     for (i, s) in stats.iter().enumerate() {
+        if c.no_reporter {
+            break;
+        }
         match &last_of[i] {
             None => return viol("final-report", format!("no statistics report for Eb/N0 {}", s.ebn0_db)),
             Some(l) if !same_counts(l, s) => return viol("final-report", format!("the last report of Eb/N0 {} differs from the returned statistics: {l:?} vs {s:?}", s.ebn0_db)),
@@ -519,8 +544,8 @@ fn run_case(c: &Case) -> serde_json::Value {
                 let (t, _) = frame_type(c.seed, &c.weights, pnt, j);
                 j += 1;
                 n[t] += 1;
-                let (e, _) = type_spec(t, k);
-                let is_err = if c.bch { e > 2 } else { e > 0 };
+                let (e, _) = type_spec(t, k, c.bch_t as usize);
+                let is_err = if c.bch { e as u64 > c.bch_t } else { e > 0 };
                 if is_err {
                     errs += 1;
                 }
@@ -544,7 +569,7 @@ pub fn property() -> Property {
         subs: vec![
             Box::new(Sub {
                 name: "statistics",
-                rule: "each case in a child process pinned (sched_setaffinity) to 1..16 CPUs, so that the engine starts that many workers; BPSK, 40 dB, no puncturing: the hard decision of the LLRs is the transmitted word; a scripted decoder (per decoder instance and frame: type and delay from a hash of the case seed; delays none / yield / 0-200 us sleeps / stalled even workers) returns it with e_t systematic bits flipped (parity bits too in some types), verdict v_t and iteration count B^t (B = 1024) for six frame types (0, 0, 1, 2 = exactly the outer-code threshold, 3 with a success verdict = false decode, k bit errors), so total_iterations decodes uniquely into counted frames per type and every reported number is predicted exactly (frames, frame errors, false decodes, systematic bit errors, correct-frame iterations, outer-code accounting with threshold 2, BER/FER/averages as ratios, stop exactly at max_frame_errors in 1..=40, counted <= produced per type); report stream: same identities, frame counts non-decreasing per point, last report = returned entry, 'finished' exactly once and last; all decoders built are dropped when run() returns; with one worker the counted set is exactly the script prefix; 1-3 Eb/N0 points, with/without outer-code threshold; non-trivial = >= 2 workers and >= 3 frame types counted; inner = frames decoded",
+                rule: "each case in a child process pinned (sched_setaffinity) to 1..16 CPUs, so that the engine starts that many workers; BPSK, 40 dB, no puncturing: the hard decision of the LLRs is the transmitted word; a scripted decoder (per decoder instance and frame: type and delay from a hash of the case seed; delays none / yield / 0-200 us sleeps / stalled even workers) returns it with e_t systematic bits flipped (parity bits too in some types), verdict v_t and iteration count B^t (B = 1024) for six frame types (0, 0, 1, T = exactly the outer-code threshold, T+1 with a success verdict = false decode, k bit errors; T drawn from 1..=4), so total_iterations decodes uniquely into counted frames per type and every reported number is predicted exactly (frames, frame errors, false decodes, systematic bit errors, correct-frame iterations, outer-code accounting with threshold T, BER/FER/averages as ratios, stop exactly at max_frame_errors in 1..=40, counted <= produced per type); report stream: same identities, frame counts non-decreasing per point, last report = returned entry, 'finished' exactly once and last; all decoders built are dropped when run() returns; with one worker the counted set is exactly the script prefix; 1-3 Eb/N0 points, with/without outer-code threshold; one case in five runs without a reporter (return value only); non-trivial = >= 2 workers and >= 3 frame types counted; inner = frames decoded",
                 cases: |t| t.pick(6_000, 150_000),
                 strategy,
                 check,
